@@ -175,9 +175,16 @@ func checkLine(line shaping.Line, cx *lineCtx, fail failFn) (st lineStats) {
 		reduced = append(reduced, lv)
 		dirs[line[i].Direction.Progression()] = true
 	}
+	// the truncator is a run like the others, logically last: at paragraph level when it was shaped
+	// in the paragraph direction, one level above otherwise (its Direction is all the wrapper knows)
+	truncLevel := e
 	if hasTrunc {
-		reduced = append(reduced, e) // truncator at paragraph level, logically last
-		dirs[dirOf(cx.paraRTL).Progression()] = true
+		if (line[n-1].Direction.Progression() == di.TowardTopLeft) != cx.paraRTL {
+			truncLevel = e + 1
+			ev.Label(cx.tag + "_line_with_opposite_direction_truncator")
+		}
+		reduced = append(reduced, truncLevel)
+		dirs[line[n-1].Direction.Progression()] = true
 	}
 	st.nontrivial = n >= 2 && len(dirs) >= 2
 
@@ -230,7 +237,7 @@ func checkLine(line shaping.Line, cx *lineCtx, fail failFn) (st lineStats) {
 	}
 	if hasTrunc {
 		items = append(items, -1)
-		itemLevels = append(itemLevels, e)
+		itemLevels = append(itemLevels, truncLevel)
 	}
 	trueOrder := uaxref.L2Order(itemLevels)
 	misordered := len(trueOrder) != len(implied)
@@ -360,6 +367,8 @@ type synCase struct {
 	// WSMask bit i set: the glyph of run i is whitespace (Width 0).
 	WSMask      uint `json:"ws_mask"`
 	DisableTrim bool `json:"disable_trim"`
+	// TruncOpp: the truncator run has the direction opposite to the paragraph's.
+	TruncOpp bool `json:"trunc_opposite,omitempty"`
 	// WrapParagraph: use LineWrapper.WrapParagraph with the first-line width for every line
 	// instead of successive WrapNextLine calls.
 	WrapParagraph bool `json:"wrap_paragraph"`
@@ -419,7 +428,7 @@ func runSynthetic(t ev.TB, c synCase) (nontrivial bool) {
 	}
 	runs, text := synRuns(c)
 	trunc := shaping.Output{
-		Advance: fixed.I(synAdv), Size: fixed.I(16), Direction: dirOf(c.ParaRTL),
+		Advance: fixed.I(synAdv), Size: fixed.I(16), Direction: dirOf(c.ParaRTL != c.TruncOpp),
 		Glyphs:      []shaping.Glyph{{Width: fixed.I(8), XAdvance: fixed.I(synAdv), GlyphID: synTruncGID, GlyphCount: 1}},
 		VisualIndex: -9,
 	}
@@ -558,7 +567,11 @@ func TestPropSynthetic(t *testing.T) {
 				}
 			}
 		}
+		for split := 0; split < n; split++ {
+			run(synCase{ParaRTL: rtl, Levels: lv, TruncMode: 1, Split: split, WSMask: masks[0], TruncOpp: true})
+		}
 		for split := 1; split < n; split++ {
+			run(synCase{ParaRTL: rtl, Levels: lv, TruncMode: 2, Split: split, WSMask: masks[2], TruncOpp: true})
 			run(synCase{ParaRTL: rtl, Levels: lv, TruncMode: 2, Split: split, WSMask: masks[0]})
 			run(synCase{ParaRTL: rtl, Levels: lv, TruncMode: 2, Split: split, WSMask: masks[2]})
 		}
